@@ -80,6 +80,9 @@ var StaticBad = map[string]reflect.Type{
 	"BadRecS": reflect.TypeOf(BadRecS{}), "BadRecP": reflect.TypeOf(BadRecP{}), "BadRecM": reflect.TypeOf(BadRecM{}),
 }
 
+// Marked is the named type for which some instances register a marker codec (C17).
+type Marked int32
+
 // Static is the table of named types by name.
 var Static = map[string]reflect.Type{}
 var staticName = map[reflect.Type]string{}
